@@ -33,6 +33,10 @@ def split_spec(field_text, kind):
 def gen_list_field(rng, kind, name):
     n = rng.randint(1, 5)      # a field without any value is not a list field (the library asserts a non-empty value)
     vals = [rng.choice(WORDS) for _ in range(n)]
+    if kind == "comma" and rng.random() < 0.15:
+        # a comma-separated value may itself run over many continuation lines
+        k = rng.randrange(n)
+        vals[k] = "w0" + "".join("\n%sw%d x" % (rng.choice([" ", "\t", "  "]), j) for j in range(1, rng.choice([2, 6, 9])))
     sep = lambda: rng.choice([" ", "  ", "\t"]) if kind == "space" else rng.choice([", ", ",", " , ", ",  "])
     text = name + rng.choice([": ", ":", ":  "])
     for i, v in enumerate(vals):
@@ -88,6 +92,12 @@ def run(ctx):
             kv = p.get_kvpair_element("List")
             with kv.interpret_as(interp[kind]) as l:
                 got = list(l)
+            if rng.random() < 0.5:
+                # reading through value references (without assigning anything) is reading too
+                with kv.interpret_as(interp[kind]) as l:
+                    via_refs = [r.value for r in l.iter_value_references()]
+                if via_refs != got:
+                    raise AssertionError("iter_value_references yields %r, the view yields %r" % (via_refs, got))
         except Exception as e:
             t.failed("reading the list view raised %r" % (e,), document=doc, kind=kind)
             break
